@@ -198,7 +198,7 @@ class Interp(object):
             prefix = ch
 
     def choose(self, n, label=None):
-        if n <= 1:
+        if n <= 1 or getattr(self, 'deterministic', False):
             return 0
         if self.pos < len(self.choices):
             c = self.choices[self.pos][0]
